@@ -150,6 +150,9 @@ class Check:
             print("violation: %s -- %s" % (key_str(g["key"]), g["desc"]))
             print("VIOLATION property=%s replay=%s" % (self.prop, path))
             rc = max(rc, 1)
+        # a gated violation is a verdict even if another finding of the same run did not replay
+        if nviol > 0:
+            rc = 1
         for kid, (known, cnt) in sorted(known_lines.items()):
             print("KNOWN-FINDING: property=%s %s (seen %d times this run)" % (self.prop, known.get("description", kid), cnt))
         wall = time.time() - self.t0
